@@ -302,6 +302,32 @@ theorem step_counter_counts_steps (n : Nat) (h : List HistStep) :
     · simp [he]
     · simp [he]; omega
 
+/-- the scattering bound of `energy_nonincreasing` along the track's own energy history -/
+def ScatterOK (P : Ledger.Particles ℝ) (pid : Nat) : ℝ → List (Ledger.StepIn ℝ) → Prop
+  | _, [] => True
+  | e, inp :: rest =>
+    (∀ r, inp.post = .interact r → r.action = .scattered → r.energy ≤ (Ledger.alongStep e inp).e) ∧
+      ((Ledger.stepLedger P pid e inp).fate = .alive →
+        ScatterOK P pid (Ledger.stepLedger P pid e inp).e1 rest)
+
+/-- ★ over ANY number of steps a track's kinetic energy never exceeds what it started with
+    (C01's track ledger run along the track's own energy history) -/
+theorem energy_nonincreasing_over_track (P : Ledger.Particles ℝ) (pid : Nat) (e0 : ℝ)
+    (steps : List (Ledger.StepIn ℝ)) (h : Ledger.TrackOK P pid e0 steps)
+    (hs : ScatterOK P pid e0 steps) :
+    Ledger.finalE e0 (Ledger.runTrack P pid e0 steps) ≤ e0 := by
+  induction steps generalizing e0 with
+  | nil => simp [Ledger.runTrack, Ledger.finalE]
+  | cons inp rest ih =>
+    obtain ⟨hok, hrest⟩ := h
+    obtain ⟨hsc, hsrest⟩ := hs
+    have h1 := energy_nonincreasing P pid e0 inp hok hsc
+    cases hf : (Ledger.stepLedger P pid e0 inp).fate <;>
+      simp only [Ledger.runTrack, hf, Ledger.finalE]
+    all_goals first
+      | exact h1
+      | exact le_trans (ih _ (hrest hf) (hsrest hf)) h1
+
 /-! ### non-vacuity -/
 
 /-- physics step (1/100) below the MSC floor (1/10): the physics step is returned, not the floor -/
